@@ -170,6 +170,12 @@ def path_agreement(ctx, P, py, rule="NEWICK-PATHS"):
     ctx.ob(rule, "C|ms-label", any(l == "label" and r in ("(v + 1)", "((int)v + 1)") for l, o, r, n in F.assigns) or "(int) v + 1" in src, tu.loc(fn.node), "legacy label = v + 1 on leaves")
     ctx.ob(rule, "C|sample-label", "flags[v] & TSK_NODE_IS_SAMPLE" in src, tu.loc(fn.node), "default label on sample nodes")
     ctx.ob(rule, "C|branch-format", '":%.*f"' in src, tu.loc(fn.node), 'branch length format ":%.*f"')
+    from sa.expr import calls as _calls, callee as _callee
+    prints = [c for c in _calls(fn.body) if any(x.k == "DeclRefExpr" and x.ref == "branch_length" for a in c.kids[1:] for x in walk(a))]
+    badp = [c for c in prints if not ('":%.*f"' in tu.src(c) and any("precision" in estr(a) for a in c.kids[1:]))]
+    ctx.ob(rule, "C|branch-format-every-path", bool(prints) and not badp, tu.loc(badp[0]) if badp else tu.loc(fn.node),
+           "every call that prints branch_length uses \":%.*f\" with the requested precision (as the Python path does)" if not badp else
+           "`%s` prints the branch length without the fixed-precision format the Python path uses" % " ".join(tu.src(badp[0]).split())[:90])
     bl = [n for l, o, r, n in F.assigns if l == "branch_length"]
     okb = bool(bl) and any("(u != root_parent)" in xstr(i.kids[0], F.al) for i, br in F.enclosing_ifs(bl[0]))
     ctx.ob(rule, "C|branch-nonroot", okb, tu.loc(fn.node), "branch length emitted only when the node is not the chosen root")
